@@ -1,0 +1,59 @@
+//! Verification hooks (feature `verif-hooks`): lets a test harness observe and answer the
+//! allocator requests made for heap buffers. With no table installed the global allocator is used,
+//! so enabling the feature alone does not change behaviour.
+
+use core::alloc::Layout;
+use core::sync::atomic::{AtomicPtr, Ordering};
+
+/// Replacement for the three global-allocator entry points used by the heap buffer.
+pub struct AllocTable {
+    pub alloc: unsafe fn(Layout) -> *mut u8,
+    pub realloc: unsafe fn(*mut u8, Layout, usize) -> *mut u8,
+    pub dealloc: unsafe fn(*mut u8, Layout),
+}
+
+static TABLE: AtomicPtr<AllocTable> = AtomicPtr::new(core::ptr::null_mut());
+
+/// Installs (`Some`) or removes (`None`) the table. Buffers must be released through the table
+/// they were obtained from.
+pub fn install(table: Option<&'static AllocTable>) {
+    let ptr = match table {
+        Some(t) => t as *const AllocTable as *mut AllocTable,
+        None => core::ptr::null_mut(),
+    };
+    TABLE.store(ptr, Ordering::SeqCst);
+}
+
+#[inline]
+fn table() -> Option<&'static AllocTable> {
+    // SAFETY: the pointer is either null or comes from a `&'static AllocTable`.
+    unsafe { TABLE.load(Ordering::SeqCst).as_ref() }
+}
+
+pub(crate) unsafe fn alloc(layout: Layout) -> *mut u8 {
+    match table() {
+        Some(t) => unsafe { (t.alloc)(layout) },
+        None => unsafe { alloc::alloc::alloc(layout) },
+    }
+}
+
+pub(crate) unsafe fn realloc(ptr: *mut u8, layout: Layout, new_size: usize) -> *mut u8 {
+    match table() {
+        Some(t) => unsafe { (t.realloc)(ptr, layout, new_size) },
+        None => unsafe { alloc::alloc::realloc(ptr, layout, new_size) },
+    }
+}
+
+pub(crate) unsafe fn dealloc(ptr: *mut u8, layout: Layout) {
+    match table() {
+        Some(t) => unsafe { (t.dealloc)(ptr, layout) },
+        None => unsafe { alloc::alloc::dealloc(ptr, layout) },
+    }
+}
+
+impl crate::LeanString {
+    /// Current reference count of the heap buffer, `None` if the string is not heap allocated.
+    pub fn verif_ref_count(&self) -> Option<usize> {
+        self.0.verif_ref_count()
+    }
+}
